@@ -27,6 +27,7 @@ def execOp (st : DrvState) (toks : List String) : DrvState × String :=
   | "std" :: op :: args => (st, execStd op args)
   | "codec" :: op :: args => (st, execCodec op args)
   | "msg" :: op :: args => (st, execMsg op args)
+  | "cfg" :: op :: args => (st, execCfg op args)
   | "send" :: op :: args =>
     let (s', out) := execSend st.send op args
     ({ st with send := s' }, out)
